@@ -160,6 +160,13 @@ Proof.
     nia.
 Qed.
 
+Lemma trunc_part_bounds Q lo hi : lo <= Q <= hi -> lo <= 0 <= hi ->
+  lo <= Z.quot Q e8 * e8 <= hi /\ (0 <= Q -> 0 <= Z.quot Q e8) /\ Z.abs (Z.quot Q e8) <= Z.abs Q.
+Proof. intros. unfold e8. lia. Qed.
+
+Lemma quot_e8_div Q : 0 <= Q -> Q / e8 = Z.quot Q e8.
+Proof. intros. unfold e8. lia. Qed.
+
 Theorem fix64_mod_correct a b :
   n_in_range NFix64 a -> n_in_range NFix64 b ->
   fix64_mod a b = mod_strict NFix64 a b.
@@ -169,29 +176,40 @@ Proof.
   destruct (Z.eqb_spec b 0) as [Hz|Hz]; [reflexivity|].
   simpl scale.
   destruct (nfit NFix64 (Z.quot (a * e8) b)) as [q|e] eqn:Q; [|reflexivity].
-  simpl bind.
-  rewrite nfit_fix64 in Q. revert Q. brk; intro Q; try discriminate. inversion Q; subst q; clear Q.
-  pose proof (nested_trunc a b e8 Hz ltac:(unfold e8; lia)) as N.
-  set (Q := Z.quot (a * e8) b) in *.
-  apply (proj1 (nin_fix64 _)) in Ha. apply (proj1 (nin_fix64 _)) in Hb.
-  destruct (quot_mul_bounds a b Hz) as [P1 P2].
-  assert (T: -92233720368 <= Z.quot Q e8 <= 92233720368) by (unfold e8; lia).
-  rewrite (wrap_s64_id (Z.quot Q e8)) by lia.
-  rewrite wrap_s64_id by (unfold e8; lia).
-  assert (M: Z.quot (Z.quot Q e8 * e8 * b) e8 = Z.quot a b * b).
-  { rewrite <- N. replace (Z.quot Q e8 * e8 * b) with (Z.quot Q e8 * b * e8) by ring.
+  cbn [bind].
+  assert (HQ: q = Z.quot (a * e8) b /\ -9223372036854775808 <= q <= 9223372036854775807).
+  { rewrite nfit_fix64 in Q. revert Q. brk; intro Q; try discriminate. inversion Q. lia. }
+  destruct HQ as [Eq HQ]. clear Q.
+  pose proof (nested_trunc a b e8 Hz ltac:(reflexivity)) as N. rewrite <- Eq in N.
+  destruct (trunc_part_bounds q _ _ HQ ltac:(lia)) as [T1 _].
+  assert (T0: -9223372036854775808 <= Z.quot q e8 <= 9223372036854775807).
+  { clear - HQ. unfold e8. lia. }
+  rewrite (wrap_s64_id (Z.quot q e8)) by exact T0.
+  rewrite wrap_s64_id by exact T1.
+  assert (M: Z.quot (Z.quot q e8 * e8 * b) e8 = Z.quot a b * b).
+  { rewrite <- N. replace (Z.quot q e8 * e8 * b) with (Z.quot q e8 * b * e8) by ring.
     apply Z.quot_mul. discriminate. }
-  assert (Hp: n_in_range NFix64 (Z.quot Q e8 * e8)).
-  { apply nin_fix64. unfold e8 in *. lia. }
-  rewrite (fix64_arith_correct FMul _ b Hp (proj2 (nin_fix64 _) Hb)).
+  rewrite (fix64_arith_correct FMul _ b (proj2 (nin_fix64 _) T1) Hb).
   unfold spec_arith, exact_fix. simpl scale. rewrite M.
-  assert (R: -9223372036854775808 <= Z.quot a b * b <= 9223372036854775807) by lia.
-  rewrite nfit_fix64. brk; try lia. simpl bind.
-  rewrite (fix64_arith_correct FSub a _ (proj2 (nin_fix64 _) Ha) (proj2 (nin_fix64 _) R)).
+  pose proof (proj1 (nin_fix64 _) Ha) as Ha'.
+  destruct (quot_mul_bounds a b Hz) as [P1 P2].
+  assert (R: -9223372036854775808 <= Z.quot a b * b <= 9223372036854775807).
+  { clear - Ha' P1 P2. destruct (Z.leb_spec 0 a); [specialize (P1 H)|specialize (P2 ltac:(lia))]; lia. }
+  rewrite nfit_fix64.
+  destruct (Z.ltb_spec (Z.quot a b * b) (-9223372036854775808)); [lia|].
+  destruct (Z.gtb_spec (Z.quot a b * b) 9223372036854775807); [lia|].
+  cbn [bind].
+  rewrite (fix64_arith_correct FSub a _ Ha (proj2 (nin_fix64 _) R)).
   unfold spec_arith, exact_fix.
   pose proof (Z.quot_rem' a b) as E.
-  replace (a - Z.quot a b * b) with (Z.rem a b) by lia.
-  rewrite nfit_fix64. brk; try lia. reflexivity.
+  assert (E': a - Z.quot a b * b = Z.rem a b) by (clear - E; lia).
+  rewrite E'.
+  assert (RR: -9223372036854775808 <= Z.rem a b <= 9223372036854775807).
+  { rewrite <- E'. clear - Ha' P1 P2.
+    destruct (Z.leb_spec 0 a); [specialize (P1 H)|specialize (P2 ltac:(lia))]; lia. }
+  rewrite nfit_fix64.
+  destruct (Z.ltb_spec (Z.rem a b) (-9223372036854775808)); [lia|].
+  destruct (Z.gtb_spec (Z.rem a b) 9223372036854775807); [lia|]. reflexivity.
 Qed.
 
 Theorem ufix64_mod_correct a b :
@@ -203,29 +221,37 @@ Proof.
   destruct (Z.eqb_spec b 0) as [Hz|Hz]; [reflexivity|].
   simpl scale.
   destruct (nfit NUFix64 (Z.quot (a * e8) b)) as [q|e] eqn:Q; [|reflexivity].
-  simpl bind.
-  rewrite nfit_ufix64 in Q. revert Q. brk; intro Q; try discriminate. inversion Q; subst q; clear Q.
-  pose proof (nested_trunc a b e8 Hz ltac:(unfold e8; lia)) as N.
-  set (Q := Z.quot (a * e8) b) in *.
-  apply (proj1 (nin_ufix64 _)) in Ha. apply (proj1 (nin_ufix64 _)) in Hb.
-  destruct (quot_mul_bounds a b Hz) as [P1 _]. specialize (P1 ltac:(lia)).
-  assert (D: Q / e8 = Z.quot Q e8) by (unfold e8; lia).
-  rewrite D.
-  assert (T: 0 <= Z.quot Q e8 <= 184467440737) by (unfold e8; lia).
-  rewrite (wrap_u64_id (Z.quot Q e8)) by lia.
-  rewrite wrap_u64_id by (unfold e8; lia).
-  assert (M: Z.quot (Z.quot Q e8 * e8 * b) e8 = Z.quot a b * b).
-  { rewrite <- N. replace (Z.quot Q e8 * e8 * b) with (Z.quot Q e8 * b * e8) by ring.
+  cbn [bind].
+  assert (HQ: q = Z.quot (a * e8) b /\ 0 <= q <= 18446744073709551615).
+  { rewrite nfit_ufix64 in Q. revert Q. brk; intro Q; try discriminate. inversion Q. lia. }
+  destruct HQ as [Eq HQ]. clear Q.
+  pose proof (nested_trunc a b e8 Hz ltac:(reflexivity)) as N. rewrite <- Eq in N.
+  rewrite (quot_e8_div q) by lia.
+  destruct (trunc_part_bounds q _ _ HQ ltac:(lia)) as [T1 [T2 _]]. specialize (T2 ltac:(lia)).
+  assert (T0: 0 <= Z.quot q e8 <= 18446744073709551615).
+  { clear - HQ. unfold e8. lia. }
+  rewrite (wrap_u64_id (Z.quot q e8)) by exact T0.
+  rewrite wrap_u64_id by exact T1.
+  assert (M: Z.quot (Z.quot q e8 * e8 * b) e8 = Z.quot a b * b).
+  { rewrite <- N. replace (Z.quot q e8 * e8 * b) with (Z.quot q e8 * b * e8) by ring.
     apply Z.quot_mul. discriminate. }
-  assert (Hp: n_in_range NUFix64 (Z.quot Q e8 * e8)).
-  { apply nin_ufix64. unfold e8 in *. lia. }
-  rewrite (ufix64_arith_correct FMul _ b Hp (proj2 (nin_ufix64 _) Hb)).
+  rewrite (ufix64_arith_correct FMul _ b (proj2 (nin_ufix64 _) T1) Hb).
   unfold spec_arith, exact_fix. simpl scale. rewrite M.
-  assert (R: 0 <= Z.quot a b * b <= 18446744073709551615) by lia.
-  rewrite nfit_ufix64. brk; try lia. simpl bind.
-  rewrite (ufix64_arith_correct FSub a _ (proj2 (nin_ufix64 _) Ha) (proj2 (nin_ufix64 _) R)).
+  pose proof (proj1 (nin_ufix64 _) Ha) as Ha'.
+  destruct (quot_mul_bounds a b Hz) as [P1 _]. specialize (P1 ltac:(lia)).
+  assert (R: 0 <= Z.quot a b * b <= 18446744073709551615) by (clear - Ha' P1; lia).
+  rewrite nfit_ufix64.
+  destruct (Z.ltb_spec (Z.quot a b * b) 0); [lia|].
+  destruct (Z.gtb_spec (Z.quot a b * b) 18446744073709551615); [lia|].
+  cbn [bind].
+  rewrite (ufix64_arith_correct FSub a _ Ha (proj2 (nin_ufix64 _) R)).
   unfold spec_arith, exact_fix.
-  pose proof (Z.quot_rem' a b) as E. pose proof (Z.rem_nonneg a b Hz ltac:(lia)).
-  replace (a - Z.quot a b * b) with (Z.rem a b) by lia.
-  rewrite nfit_ufix64. brk; try lia. reflexivity.
+  pose proof (Z.quot_rem' a b) as E.
+  assert (E': a - Z.quot a b * b = Z.rem a b) by (clear - E; lia).
+  rewrite E'.
+  assert (RR: 0 <= Z.rem a b <= 18446744073709551615).
+  { rewrite <- E'. clear - Ha' P1. lia. }
+  rewrite nfit_ufix64.
+  destruct (Z.ltb_spec (Z.rem a b) 0); [lia|].
+  destruct (Z.gtb_spec (Z.rem a b) 18446744073709551615); [lia|]. reflexivity.
 Qed.
